@@ -69,6 +69,8 @@ fn main() {
             "C17" => vf_harness::artifacts::run_c17(&ctx),
             "C18" => vf_harness::artifacts::run_c18(&ctx),
             "C23" => vf_harness::faults::run_c23(&ctx),
+            "C34" => vf_harness::leanref::run_c34(&ctx),
+            "C11" => vf_harness::foreign::run_c11(&ctx),
             "C28" => vf_harness::policy::run_c28(&ctx),
             "C29" => vf_harness::policy::run_c29(&ctx),
             _ => {
